@@ -45,6 +45,15 @@ pub struct Cfg12 {
     pub level: u8,
     pub gc: bool,
     pub foreign: bool,
+    /// every action is its own capture step (no Tick actions needed)
+    #[serde(default)]
+    pub auto_tick: bool,
+    /// restrict the alphabet to operations below this root (smaller alphabet, deeper search)
+    #[serde(default)]
+    pub only_root: Option<char>,
+    /// at most this many edit actions per sequence (0 = unlimited); the rest is undo/redo
+    #[serde(default)]
+    pub max_edits: usize,
 }
 
 fn scoped_roots(fam: Fam) -> Vec<char> {
@@ -72,6 +81,7 @@ struct W12 {
     d_events: Vec<Vec<u8>>,
     nops: usize,
     fam: Fam,
+    auto_tick: bool,
     // model
     undo_snaps: Vec<(Model, bool)>, // (scoped content before the step, foreign edit since?)
     redo_snaps: Vec<(Model, bool)>,
@@ -133,6 +143,7 @@ impl W12 {
             d_events: Vec::new(),
             nops: 0,
             fam: cfg.fam,
+            auto_tick: cfg.auto_tick,
             undo_snaps: Vec::new(),
             redo_snaps: Vec::new(),
             foreign_tags: BTreeSet::new(),
@@ -160,7 +171,7 @@ impl W12 {
     }
 
     fn step(&mut self, a: &A12) -> Result<(), (String, String)> {
-        self.clock.fetch_add(1, Ordering::SeqCst);
+        self.clock.fetch_add(if self.auto_tick { 100 } else { 1 }, Ordering::SeqCst);
         let fam = self.fam;
         let before = self.d.dump();
         let (ul0, rl0) = (self.um.undo_stack().len(), self.um.redo_stack().len());
@@ -371,10 +382,14 @@ impl W12 {
     fn enabled(&self, cfg: &Cfg12, last_tick: bool) -> Vec<A12> {
         let mut out = Vec::new();
         let st = self.d.dump();
-        for op in gen_ops(cfg.fam, &st, self.nops, cfg.level) {
-            out.push(A12::Edit(op));
+        if cfg.max_edits == 0 || self.nops < cfg.max_edits {
+            for op in gen_ops(cfg.fam, &st, self.nops, cfg.level) {
+                if cfg.only_root.map(|r| op.tgt().root == r).unwrap_or(true) {
+                    out.push(A12::Edit(op));
+                }
+            }
         }
-        if !last_tick && self.um.undo_stack().len() > 0 {
+        if !cfg.auto_tick && !last_tick && self.um.undo_stack().len() > 0 {
             out.push(A12::Tick);
         }
         if self.um.can_undo() {
@@ -397,7 +412,10 @@ impl W12 {
 }
 
 fn bounds(tier: Tier) -> Vec<(Cfg12, usize)> {
-    let c = |fam, level, gc, foreign| Cfg12 { fam, level, gc, foreign };
+    let c = |fam, level, gc, foreign| Cfg12 { fam, level, gc, foreign, auto_tick: false, only_root: None, max_edits: 0 };
+    let ca = |fam, level, gc, foreign| Cfg12 { fam, level, gc, foreign, auto_tick: true, only_root: None, max_edits: 0 };
+    let cr = |fam, level, gc, root| Cfg12 { fam, level, gc, foreign: false, auto_tick: true, only_root: Some(root), max_edits: 3 };
+    let cm = |fam, level, gc, edits| Cfg12 { fam, level, gc, foreign: false, auto_tick: true, only_root: None, max_edits: edits };
     match tier {
         Tier::Quick => vec![
             (c(Fam::Txt, 0, true, false), 7),
@@ -409,6 +427,9 @@ fn bounds(tier: Tier) -> Vec<(Cfg12, usize)> {
             (c(Fam::Rtx, 0, true, false), 4),
             (c(Fam::Nest, 0, true, false), 5),
             (c(Fam::Nest, 0, true, true), 4),
+            (cr(Fam::Nest, 0, true, 'a'), 8),
+            (cr(Fam::Nest, 0, true, 'm'), 8),
+            (cm(Fam::Txt, 0, true, 3), 8),
             (c(Fam::Xml, 0, true, false), 4),
         ],
         Tier::Thorough => vec![
@@ -423,6 +444,17 @@ fn bounds(tier: Tier) -> Vec<(Cfg12, usize)> {
             (c(Fam::Rtx, 0, true, true), 5),
             (c(Fam::Nest, 0, true, false), 6),
             (c(Fam::Nest, 0, true, true), 5),
+            (ca(Fam::Nest, 0, true, false), 7),
+            (cr(Fam::Nest, 0, true, 'a'), 10),
+            (cr(Fam::Nest, 0, false, 'm'), 10),
+            (cm(Fam::Nest, 0, true, 4), 9),
+            (cm(Fam::Txt, 1, true, 4), 10),
+            (cm(Fam::Map, 1, true, 4), 10),
+            (cm(Fam::Arr, 1, true, 4), 10),
+            (cm(Fam::Xml, 0, true, 3), 8),
+            (ca(Fam::Nest, 1, false, false), 7),
+            (ca(Fam::Txt, 0, true, false), 9),
+            (ca(Fam::Map, 1, true, true), 6),
             (c(Fam::Xml, 0, true, false), 6),
             (c(Fam::Xml, 0, true, true), 4),
         ],
@@ -479,7 +511,7 @@ fn dfs(ctx: &mut Ctx, cfg: &Cfg12, max: usize, trace: &mut Vec<A12>, visited: &m
     let acts = w.enabled(cfg, matches!(trace.last(), Some(A12::Tick)));
     drop(w);
     for a in acts {
-        if trace.is_empty() {
+        if trace.len() == 1 {
             *idx += 1;
             if !ctx.mine(*idx) {
                 continue;
